@@ -141,6 +141,11 @@ let handle (toks : string list) : string =
                  else "ok nt"
            end
        | _ -> "bad line")
+  | ["J"; bx; by; eq] ->
+      (* implementation-level: two float64 partition values share a key iff they are the same value *)
+      let same = (bx = by) in
+      if (eq = "1") = same then "ok nt"
+      else Printf.sprintf "chk partition_key_collision same_value=%b keys_equal=%s" same eq
   | _ -> "bad line"
 
 let () = Registry.register "C14" handle
